@@ -167,8 +167,8 @@ func (w *websocket) send(packets []*packet.Packet) {
 					}
 					return
 				}
-				return
-
+				// the pre-encoded frame has been written: go on with the next packet
+				continue
 			}
 		}
 
